@@ -861,10 +861,46 @@ Proof.
       destruct (N.eqb_spec k2 k); auto. congruence.
 Qed.
 
+(** One entry of a dump becomes a message of its own, made of new objects. *)
+Lemma load_one_spec s e :
+  inv s ->
+  let s' := load_one s e in
+  let c := nxt (hm (hp s)) in
+  inv s' /\ ext (hp s) (hp s') /\ handles s' = handles s /\ served s' = served s /\
+  cache s' = (fst e, c) :: cache s /\ value (hp s') c = strip_opt (snd e) /\
+  (forall x, In x (reach_arrs (hp s') c) -> nxt (ha (hp s)) <= x) /\
+  (forall x, In x (reach_recs (hp s') c) -> nxt (hr (hp s)) <= x) /\
+  (forall x, In x (reach_bufs (hp s') c) -> nxt (hb (hp s)) <= x).
+Proof.
+  intros I s' c0. subst s' c0. unfold load_one. pose proof I as (W & IC & IH).
+  destruct (new_msg 0 (hp s) (strip_opt (snd e))) as [H1 c] eqn:En.
+  destruct (new_msg_spec _ _ _ _ _ En W) as (M1 & M2 & M3 & M4 & M5 & M6 & M7 & M8 & M9 & M10).
+  cbn [hp cache handles served]. rewrite <- M1. splitn; auto.
+  - pose proof (inv_frame0 s H1 (served s) I M3 (ext_frame 0 _ _ M4)) as (_ & IC' & IH').
+    split; [exact M3|]. split; cbn [hp cache handles].
+    + intros k' c' [E | Hc]; [|apply (IC' k' c'); auto]. injection E as <- <-.
+      splitn; [lia | auto | rewrite M6; apply strip_opt_noopt].
+    + exact IH'.
+  - intros x Hx. rewrite M7, in_seq in Hx. lia.
+  - intros x Hx. unfold reach_bufs in Hx. apply in_map_iff in Hx as (r & <- & Hr). auto.
+Qed.
+
+Lemma load_spec l : forall s,
+  inv s ->
+  let s' := fold_left load_one l s in
+  inv s' /\ ext (hp s) (hp s') /\ handles s' = handles s /\ served s' = served s.
+Proof.
+  induction l as [|e t IH]; intros s I; cbn [fold_left].
+  - splitn; auto using ext_refl.
+  - destruct (load_one_spec s e I) as (J1 & J2 & J3 & J4 & _).
+    destruct (IH (load_one s e) J1) as (K1 & K2 & K3 & K4).
+    splitn; auto; try congruence. eapply ext_trans; eauto.
+Qed.
+
 (** Every operation that is not a holder's write only adds objects. *)
 Lemma step_ext s o : inv s -> is_mutate o = false -> inv (step s o) /\ ext (hp s) (hp (step s o)).
 Proof.
-  intros I Hn. destruct o as [c k v|k h|c k q a|h mu|k|]; try discriminate.
+  intros I Hn. destruct o as [c k v|k h|c k q a|h mu|k| | |l]; try discriminate.
   - destruct (store_spec s c k v I) as (J1 & J2 & _). auto.
   - cbn [step]. destruct (nth_error (handles s) h) as [m|] eqn:Eh; [|auto using ext_refl].
     destruct I as (W & IC & IH). destruct (IH m (nth_error_In _ _ Eh)) as [Lm _].
@@ -876,6 +912,8 @@ Proof.
     cbn [cache hp]. intros k' c Hc. apply (IC k' c). eapply remove_In; eauto.
   - cbn [step]. split; [|apply ext_refl]. destruct I as (W & IC & IH). split; [|split]; auto.
     cbn [cache]. intros k' c [].
+  - cbn [step]. split; [auto | apply ext_refl].
+  - cbn [step]. destruct (load_spec l s I) as (J1 & J2 & _). auto.
 Qed.
 
 Lemma step_inv s o : inv s -> inv (step s o).
@@ -1074,6 +1112,21 @@ Proof.
   intros I F. cbn [lookup]. destruct (k' =? k)%N; auto. apply cache_val_frame0; auto.
 Qed.
 
+Lemma load_one_cache_val s e k :
+  inv s ->
+  cache_val (load_one s e) k = if (k =? fst e)%N then Some (strip_opt (snd e)) else cache_val s k.
+Proof.
+  intro I. destruct (load_one_spec s e I) as (J1 & J2 & J3 & J4 & J5 & J6 & _).
+  unfold cache_val at 1. rewrite J5, cache_val_cons by auto using ext_frame. rewrite J6. reflexivity.
+Qed.
+
+Lemma load_cache_val l : forall s k,
+  inv s -> cache_val (fold_left load_one l s) k = loaded k l (cache_val s k).
+Proof.
+  unfold loaded. induction l as [|e t IH]; intros s k I; cbn [fold_left]; auto.
+  destruct (load_one_spec s e I) as (J1 & _). rewrite IH by auto. rewrite load_one_cache_val by auto. reflexivity.
+Qed.
+
 (** Offering the cache a message stores the value it has at that moment,
     without OPT; other keys are not affected. *)
 Theorem store_caches_snapshot ops c k v k' :
@@ -1162,7 +1215,7 @@ Proof.
   intros (I1 & I2 & Sv & Cv) Hm Hr.
   assert (K1 := step_inv s1 o I1). assert (K2 := step_inv s2 o I2).
   unfold sim. split; [auto|]. split; [auto|].
-  destruct o as [c k v|k h|c k q a|h mu|k|]; try discriminate.
+  destruct o as [c k v|k h|c k q a|h mu|k| | |l]; try discriminate.
   - destruct (store_spec s1 c k v I1) as (_ & _ & _ & A4 & _).
     destruct (store_spec s2 c k v I2) as (_ & _ & _ & B4 & _).
     split; [congruence|]. intro k'. rewrite !inv_store_cache_val by auto. rewrite Cv. reflexivity.
@@ -1172,6 +1225,9 @@ Proof.
   - cbn [step]. split; auto. intro k'. unfold cache_val; cbn [hp cache]. rewrite !lookup_remove.
     destruct (k' =? k)%N; auto. apply Cv.
   - cbn [step]. split; auto.
+  - cbn [step]. split; auto.
+  - cbn [step]. destruct (load_spec l s1 I1) as (_ & _ & _ & A4). destruct (load_spec l s2 I2) as (_ & _ & _ & B4).
+    split; [congruence|]. intro k'. rewrite !load_cache_val by auto. rewrite Cv. reflexivity.
 Qed.
 
 Definition no_restore (ops : list op) : Prop := forallb (fun o => negb (is_restore o)) ops = true.
@@ -1196,3 +1252,104 @@ Proof. intro NR. apply (sim_run ops (run pre) (run pre)); auto. apply sim_refl, 
 Theorem mutations_invisible ops :
   no_restore ops -> served (run ops) = served (run (erase_mutations ops)).
 Proof. intro NR. apply (sim_run ops init init); auto. apply sim_refl, inv_init. Qed.
+
+(** * The cache's own dump and load *)
+
+Lemma run_snoc ops o : run (ops ++ [o]) = step (run ops) o.
+Proof. unfold run, run_from. rewrite fold_left_app. reflexivity. Qed.
+
+(** Writing a dump changes nothing: not the heap, not the cache, so every
+    later lookup returns what it would have returned without the dump. *)
+Theorem dump_preserves_store ops : step (run ops) Dump = run ops.
+Proof. reflexivity. Qed.
+
+Theorem dump_invisible ops rest : run_from (run ops) (Dump :: rest) = run_from (run ops) rest.
+Proof. reflexivity. Qed.
+
+(** After a load every key of the dump holds the value of its own (last) entry;
+    the other keys are not affected; nothing any caller holds changes. *)
+Theorem load_caches_values ops l k :
+  let s := run ops in
+  cache_val (step s (Load l)) k = loaded k l (cache_val s k) /\
+  handles (step s (Load l)) = handles s /\ served (step s (Load l)) = served s /\
+  (forall h, In h (handles s) -> value (hp (step s (Load l))) h = value (hp s) h).
+Proof.
+  intros s. pose proof (run_inv ops) as I. fold s in I. cbn [step].
+  destruct (load_spec l s I) as (J1 & J2 & J3 & J4). splitn; auto.
+  - apply load_cache_val; auto.
+  - intros h Hh. destruct I as (W & _ & IH). apply value_ext; auto. apply IH; auto.
+Qed.
+
+Lemma load_snoc s l e : step s (Load (l ++ [e])) = load_one (step s (Load l)) e.
+Proof. cbn [step]. rewrite fold_left_app. reflexivity. Qed.
+
+(** Every item a load creates is a message of its own: it shares no object
+    with any item that existed before, with any item created earlier by the
+    same load, or with any message a caller holds. *)
+Theorem load_items_disjoint ops l e :
+  let s := step (run ops) (Load l) in
+  let s' := step (run ops) (Load (l ++ [e])) in
+  exists c, cache s' = (fst e, c) :: cache s /\ value (hp s') c = strip_opt (snd e) /\
+    (forall k' c', In (k', c') (cache s) -> separated (hp s') c c') /\
+    (forall h, In h (handles s) -> separated (hp s') c h).
+Proof.
+  intros s s'. subst s'. rewrite load_snoc. fold s.
+  assert (I : inv s) by (unfold s; rewrite <- run_snoc; apply run_inv).
+  destruct (load_one_spec s e I) as (J1 & J2 & J3 & J4 & J5 & J6 & FA & FR & FB).
+  exists (nxt (hm (hp s))). split; [auto|]. split; [auto|].
+  pose proof I as (W & IC & IH).
+  assert (Old : forall x, x < nxt (hm (hp s)) -> separated (hp (load_one s e)) (nxt (hm (hp s))) x).
+  { intros x Lx. destruct (reach_ext (hp s) (hp (load_one s e)) x W J2 Lx) as (EA & ER & EB).
+    destruct (reach_region (hp s) x W Lx) as (A & R & B).
+    unfold separated, disjoint. rewrite EA, ER, EB. splitn.
+    - lia.
+    - intros y I1 I2. specialize (FA y I1). destruct (A y I2). lia.
+    - intros y I1 I2. specialize (FR y I1). destruct (R y I2). lia.
+    - intros y I1 I2. specialize (FB y I1). destruct (B y I2). lia. }
+  split.
+  - intros k' c' Hc. apply Old. apply (IC k' c' Hc).
+  - intros h Hh. apply Old, IH, Hh.
+Qed.
+
+Lemma strip_opt_id v : noopt_val v -> strip_opt v = v.
+Proof.
+  unfold noopt_val, strip_opt. intro NO. destruct v as [i h q an ns ex]; simpl in *. f_equal.
+  induction ex as [|r t IHt]; simpl; auto.
+  rewrite (NO r) by (left; auto). simpl. f_equal. apply IHt. intros x Hx. apply NO. right; auto.
+Qed.
+
+Lemma loaded_dump_other k keys : forall (f : N -> option mval) old,
+  ~ In k keys ->
+  loaded k (flat_map (fun k0 => match f k0 with Some v => [(k0, v)] | None => [] end) keys) old = old.
+Proof.
+  unfold loaded. induction keys as [|a t IH]; intros f old Hn; simpl; auto.
+  destruct (f a) as [v|]; simpl.
+  - destruct (N.eqb_spec k a); [subst; exfalso; apply Hn; left; auto|]. apply IH. intro; apply Hn; right; auto.
+  - apply IH. intro; apply Hn; right; auto.
+Qed.
+
+(** Round trip: whatever happened in between (writes to any message, stores,
+    removals, /flush), loading a dump gives back, for every key that was in
+    it, exactly the value it held when the dump was written. *)
+Theorem dump_load_roundtrip ops mid keys k v :
+  NoDup keys -> In k keys ->
+  cache_val (run ops) k = Some v ->
+  cache_val (step (run_from (run ops) mid) (Load (dump_of (run ops) keys))) k = Some v.
+Proof.
+  intros ND Hk Hv.
+  assert (I0 : inv (run ops)) by apply run_inv.
+  assert (I : inv (run_from (run ops) mid)) by (apply run_from_inv; auto).
+  cbn [step]. rewrite load_cache_val by auto.
+  assert (NO : strip_opt v = v).
+  { apply strip_opt_id. unfold cache_val in Hv. destruct (lookup k (cache (run ops))) as [c|] eqn:E; [|discriminate].
+    injection Hv as <-. destruct I0 as (_ & IC & _). apply (IC k c (lookup_In _ _ _ E)). }
+  generalize (cache_val (run_from (run ops) mid) k). unfold dump_of.
+  induction keys as [|a t IH]; [contradiction|]. intro old. inversion ND as [|? ? Ha ND']; subst.
+  cbn [flat_map]. destruct Hk as [-> | Hk].
+  - rewrite Hv. unfold loaded. cbn [app fold_left fst snd]. rewrite N.eqb_refl.
+    fold (loaded k (flat_map (fun k0 => match cache_val (run ops) k0 with Some v0 => [(k0, v0)] | None => [] end) t)
+                 (Some (strip_opt v))).
+    rewrite loaded_dump_other by auto. congruence.
+  - destruct (cache_val (run ops) a) as [va|]; [|apply IH; auto].
+    unfold loaded. cbn [app fold_left]. apply IH; auto.
+Qed.
